@@ -1,6 +1,6 @@
 """C10 - uncompact expands each cell to exactly its descendants at the target level."""
 import random
-from . import core, params, cells, tree
+from . import core, params, cells, tree, session
 
 
 def confirm(e):
@@ -65,12 +65,15 @@ def run(v):
             v.violation(clauses[0], det, {"check": "C10", "cells": det["cells"], "t": e["t"]}, {"clause": clauses[0]})
         else:
             v.drift.append(det)
+    session.run(d, v, quick, ("uncompact", "uncompactbad"), "C10.session", core.seed() + 100)
     v.exhaustive = False
     v.assumptions += ["expansion factor bounded (lists of at most 3 cells in the TLC model, target at most 2 levels below the coarsest member; random lists expand by at most 4^5 per cell)"]
     return "TLC (MC_Tree: Build/BuildMore/AskList) enumerates working lists of up to 3 cells (with multiplicity, world cell, ancestors and children together) and every target resolution incl. too-coarse ones; random deep lists to resolution 29 are added; each is replayed on uncompact and judged block-wise by Trace_Tree"
 
 
 def replay(v, obj):
+    if "session" in obj:
+        return session.replay_file(v, obj, "C10.session")
     ids = [int(x, 16) for x in obj["cells"]]
     e = tree.uncompact_event(ids, obj["t"], prelude=True)
     d = core.workdir("C10_replay")
